@@ -81,6 +81,7 @@ impl Prop for C16 {
   fn watchdog(&self, _t: Tier) -> std::time::Duration { std::time::Duration::from_secs(180) }
 
   fn gen(&self, tier: Tier, _seed: u64) -> Vec<Case> {
+    let _ = tier;
     let mut out = Vec::new();
     use Pat::*;
     // one-parameter families
@@ -120,6 +121,21 @@ impl Prop for C16 {
     for (name, arms) in fams2r.iter() { push_arm_family(&mut out, &format!("function;{}", name), arms, 2, false); push_arm_family(&mut out, &format!("match;{}", name), arms, 2, true); }
     let famsr3: Vec<(&str, Vec<Pat>)> = vec![("f23r;arms=(a,b,a),(a,a),wild", vec![Tup(vec![Var("a"), Var("b"), Var("a")]), Tup(vec![Var("a"), Var("a")]), Wild])];
     for (name, arms) in famsr3.iter() { push_arm_family(&mut out, &format!("match;{}", name), arms, 23, true); }
+    // random arm families over the full two-position vocabulary {0, 1, 2, variable (a / b, also repeated), *}: 2-4 arms, every permutation
+    {
+      let nfam = if tier == Tier::Quick { 24 } else { 400 };
+      let pos = |rng: &mut Rng, first: bool| -> Pat { match rng.below(7) { 0 => Lit(0), 1 => Lit(1), 2 => Lit(2), 3 | 4 => Var(if first { "a" } else if rng.chance(1, 3) { "a" } else { "b" }), 5 => Var(if first { "b" } else { "a" }), _ => Wild } };
+      for i in 0..nfam {
+        let mut rng = Rng::keyed(_seed, &format!("c16fam{}", i));
+        let n = 2 + rng.below(3) as usize;
+        let mut arms: Vec<Pat> = (0..n).map(|_| { let p0 = pos(&mut rng, true); let p1 = pos(&mut rng, false); Tup(vec![p0, p1]) }).collect();
+        if rng.chance(1, 2) { arms.push(Wild); }
+        if arms.len() > 4 { arms.truncate(4); }
+        let name = format!("frand;arms={}", arms.iter().map(|p| p.text()).collect::<Vec<_>>().join(","));
+        push_arm_family(&mut out, &format!("function;{}", name), &arms, 2, false);
+        push_arm_family(&mut out, &format!("match;{}", name), &arms, 2, true);
+      }
+    }
     // tuple patterns of different arity against subjects of both arities (match expressions)
     let famsm: Vec<(&str, Vec<Pat>)> = vec![
       ("f23;arms=(a,b),(a,b,c),wild", vec![Tup(vec![Var("a"), Var("b")]), Tup(vec![Var("a"), Var("b"), Var("c")]), Wild]),
